@@ -31,6 +31,7 @@ func TestC17(t *testing.T) {
 		model := map[string]*linAcc{}
 		sentToRecorded := 0
 		manyRecorded := false
+		stakingSteps := 0
 		sendsToExisting := 0
 		recordedNonVesting := 0
 		var recordedAbsent []sdk.AccAddress // recorded in the genesis file although no account exists there (yet)
@@ -333,6 +334,17 @@ func TestC17(t *testing.T) {
 				v.Advance([]int64{secNs, 3600 * secNs, dayNs, 10 * dayNs, 100 * dayNs}[rapid.IntRange(0, 4).Draw(t, "dt")])
 				note("advance to %d", v.NowNs)
 			},
+			"unbondings_complete": func(t *rapid.T) {
+				v.CompleteUnbondings()
+				stakingSteps++
+				note("unbonding period over at %d, matured unbondings paid back", v.NowNs)
+			},
+			"validator_slashed": func(t *rapid.T) {
+				f := sdk.NewDecWithPrec(int64(rapid.IntRange(1, 50).Draw(t, "slashPercent")), 2)
+				v.SlashValidator(f)
+				stakingSteps++
+				note("validator slashed by %s", f)
+			},
 			"": func(t *rapid.T) { check("after step") },
 		})
 		nt := maxDepthG >= 2 && maxDepthN >= 2
@@ -348,6 +360,9 @@ func TestC17(t *testing.T) {
 		}
 		if manyRecorded {
 			cl = append(cl, "more_than_100_recorded_accounts")
+		}
+		if stakingSteps > 0 {
+			cl = append(cl, "unbonding_completed_or_validator_slashed")
 		}
 		if sendsToExisting > 0 {
 			cl = append(cl, "pool_send_to_existing_vesting_account")
